@@ -1062,6 +1062,15 @@ class FnAnalysis:
             for x in self._tree_nodes(t, facts):
                 nodes[x] = True
             if not nodes:
+                # the observable state (memory reachable from the parameters) may depend on a callee's case as well
+                for (root, path), val in st.env.items():
+                    if root[0] == "M" and val.has_tree():
+                        v2 = self.simp(val, facts)
+                        if v2.has_tree():
+                            for x in v2.subterms():
+                                if x.op in ("mterm", "ite"):
+                                    nodes[x] = True
+            if not nodes:
                 out.append((t, State(st.env, facts)) + extra)
                 continue
             # outermost-first, deterministic: a node that is not inside another candidate's scrutinee / condition
@@ -1316,7 +1325,7 @@ class Program:
             sub = self.analysis(lf)
             if sub is not None:
                 rt = sub.ret_term()
-                if rt is not None and self._closed(rt):
+                if rt is not None and self._closed(rt) and not rt.has_tree():
                     inst = self.subst(an, st, rt, args, self.gmap(lf, callee))
                     if inst is not None:
                         return inst
